@@ -97,6 +97,13 @@ func c15Templates() []c15Template {
 		T("distinct-kinds", func(a *ast.Node) *ast.Node {
 			return ast.CallN("distinct", ast.CallN("append", a, ast.ArrN(ast.NumN(1), ast.StrN("1"), ast.BoolN(true), ast.ArrN(ast.NumN(1)), ast.N(ast.Obj, ast.StrN("a"), ast.NumN(1)), ast.N(ast.Obj, ast.StrN("a"), ast.StrN("1")), ast.CallN("count", ast.ArrN(ast.NumN(9))))))
 		}),
+		// a string that spells the JSON text of a container is a different member (seed C15-q)
+		T("distinct-spelled-literals", func(a *ast.Node) *ast.Node {
+			return ast.CallN("distinct", ast.CallN("append", a, ast.ArrN(ast.StrN("[1]"), ast.StrN(`{"a":1}`), ast.StrN("true"), ast.StrN("null"), ast.StrN("2"), ast.ArrN(ast.NumN(1)), ast.N(ast.Obj, ast.StrN("a"), ast.NumN(1)))))
+		}),
+		T("distinct-spelled-members", func(a *ast.Node) *ast.Node {
+			return ast.CallN("distinct", ast.CallN("append", ast.CallN("map", a, lam([]string{"v"}, ast.CallN("string", v))), a.Clone()))
+		}),
 		T("count", func(a *ast.Node) *ast.Node { return ast.CallN("count", a) }),
 		T("sum", func(a *ast.Node) *ast.Node { return ast.CallN("sum", a) }),
 		T("max", func(a *ast.Node) *ast.Node { return ast.CallN("max", a) }),
@@ -126,7 +133,7 @@ func c15Judge(rec *stats.Recorder, prog *ast.Node, doc val.Value, key string, nt
 // TestC15_Exhaustive: every array of length <= 3 over a 6-value domain, as a
 // literal and as an input member, under every template.
 func TestC15_Exhaustive(t *testing.T) {
-	rec := begin(t, "C15", "exhaustive: every array of 0..3 members over {1, \"1\", true, [1], {\"a\":1}, 2, null}, supplied as an array literal and as an input member, plus scalars and a missing value in array position, under 40 templates covering $map/$filter/$reduce/$single (observing callbacks of arity 0..4, built-ins, partials, chains as callbacks), $append, $reverse, $zip, $distinct, $count, $sum, $max, $min, $average; oracle = reference implementations; non-trivial = array of >= 2 members or a scalar/missing value in array position; distinct by (template, operand, supply mode)")
+	rec := begin(t, "C15", "exhaustive: every array of 0..3 members over {1, \"1\", true, [1], {\"a\":1}, 2, null}, supplied as an array literal and as an input member, plus scalars and a missing value in array position, under 42 templates covering $map/$filter/$reduce/$single (observing callbacks of arity 0..4, built-ins, partials, chains as callbacks), $append, $reverse, $zip, $distinct, $count, $sum, $max, $min, $average; oracle = reference implementations; non-trivial = array of >= 2 members or a scalar/missing value in array position; distinct by (template, operand, supply mode)")
 	defer finish(t, rec)
 	var arrays [][]val.Value
 	var build func(cur []val.Value, length int)
@@ -203,7 +210,7 @@ func genC15Array(t *rapid.T) []val.Value {
 
 // TestC15_Random: arrays up to length 8 under the same templates.
 func TestC15_Random(t *testing.T) {
-	rec := begin(t, "C15", "rapid: arrays of 0..8 members over numbers (incl. fractions whose sums depend on the order of addition), strings, booleans, nested arrays and objects with duplicates and value-equal-but-kind-different members, under the 40 templates (literal or input member); oracle = reference implementations (sum in left-to-right float order, mean of that sum); non-trivial = >= 2 members; distinct by template + array")
+	rec := begin(t, "C15", "rapid: arrays of 0..8 members over numbers (incl. fractions whose sums depend on the order of addition), strings, booleans, nested arrays and objects with duplicates and value-equal-but-kind-different members, under the 42 templates (literal or input member); oracle = reference implementations (sum in left-to-right float order, mean of that sum); non-trivial = >= 2 members; distinct by template + array")
 	defer finish(t, rec)
 	templates := c15Templates()
 	rapidRun(t, rec, 30000, 400000, func(rt *rapid.T) {
